@@ -1530,7 +1530,27 @@ fn anchor_sweep_cases(thorough: bool) -> Vec<Case> {
         let mut queries: Vec<Q> = (0..n).map(|i| Q::Compile { msg: i }).collect();
         queries.push(Q::CutPoints { stride: 4, limit: 8 });
         queries.push(Q::CompactionStatus { stride: 4 });
-        out.push(Case { ops, queries, long: true });
+        out.push(Case { ops: ops.clone(), queries: queries.clone(), long: true });
+        // the same sweep with the tail producer out of the way, so that the other producers answer every anchor:
+        // unreadable last mr line (mr tail and mr window fail: full-sidecar window), a bad line 25 lines back (small
+        // windows answer, larger ones fail), no full sidecar (no head: the newest anchor cannot be cut from the mr
+        // tail), no mr family (built from the full sidecar by the read), no message-id indexes (rebuilt by the read)
+        use FaultKind::*;
+        use Target::*;
+        let variants: Vec<Vec<Op>> = vec![
+            vec![fault(Mr, GarbageLine(0))],
+            vec![fault(Full, Delete)],
+            vec![fault(Mr, Delete), fault(MrSeek, Delete), fault(MrMsgIdx, Delete), fault(Ord, Delete)],
+            vec![fault(Mr, GarbageLine(25))],
+            vec![fault(MrMsgIdx, Delete), fault(MsgIdx, Delete), fault(Seek, Delete), fault(MrSeek, Delete)],
+            vec![fault(Mr, GarbageLine(0)), fault(Full, GarbageLine(0))],
+        ];
+        let nvar = if thorough { if size <= 60_000 { variants.len() } else { 2 } } else if out.len() == 1 { 3 } else { 0 };
+        for v in variants.into_iter().take(nvar) {
+            let mut o = ops.clone();
+            o.extend(v);
+            out.push(Case { ops: o, queries: queries.clone(), long: true });
+        }
     }
     out
 }
@@ -1659,6 +1679,8 @@ fn default_recovery_check(res: &mut RunResult, with_child: bool, case_id: i64) -
 // ---------------------------------------------------------------- one case
 struct Outcome {
     results: Vec<(Q, Ans, Ans)>, // (query, fast, truth)
+    again: Vec<Option<Ans>>,     // the same question asked a second time of the store the first call left behind (read-only queries)
+    read_writer_violations: Vec<(usize, Target, String)>, // (query index, file, what): a READ moved a cache file outside the reference write semantics
     abs: Abs,
     full: Option<Vec<(bool, u64)>>,
     comp: Option<Vec<(bool, u64)>>,
@@ -1688,7 +1710,11 @@ fn run_case(case: &Case) -> Outcome {
     let fast_root = root.join("copy-fast");
     let truth_root = root.join("copy-truth");
     let mut results = vec![];
-    for q in &case.queries {
+    let mut again: Vec<Option<Ans>> = vec![];
+    let mut read_writer_violations: Vec<(usize, Target, String)> = vec![];
+    let truth_ls = if case.long { vec![] } else { truth_lines(&root, &b.id) };
+    let truth_ok = truth_ls.iter().enumerate().all(|(i, (e, _))| e.seq == i as u64);
+    for (qi, q) in case.queries.iter().enumerate() {
         if hung {
             break; // one hang per case is reported; the leaked thread keeps a core busy
         }
@@ -1706,12 +1732,31 @@ fn run_case(case: &Case) -> Outcome {
         if streams_dir(&root).exists() {
             copy_dir(&streams_dir(&root), &streams_dir(&fast_root));
         }
+        let read_only = !matches!(q, Q::Rotate { .. } | Q::BranchCut { .. } | Q::HandoffCut { .. });
+        let before = if !case.long && read_only { Some(file_versions(&fast_root, &b.id)) } else { None };
         let fast = with_watchdog(secs, fast_root.clone(), b.id.clone(), b.messages.clone(), q.clone());
+        // a read may (re)build cache files: whatever it writes must be what the reference writers write, and the same
+        // question asked again of the store it left behind must get the same answer
+        let mut second = None;
+        if let (Some(before), true, true) = (&before, truth_ok, !matches!(fast, Ans::Hang | Ans::Panic)) {
+            let after = file_versions(&fast_root, &b.id);
+            for t in CONFORM_TARGETS {
+                let unread = |m: &BTreeMap<Target, Option<Vec<u8>>>| m[&t].is_none() && target_path(&fast_root, &b.id, t).exists();
+                if unread(&after) {
+                    continue;
+                }
+                if let Some(what) = writer_conforms(t, &b.id, &before[&t], &after[&t], &truth_ls, &after[&Target::Full], &after[&Target::Comp]) {
+                    read_writer_violations.push((qi, t, what));
+                }
+            }
+            second = Some(with_watchdog(secs, fast_root.clone(), b.id.clone(), b.messages.clone(), q.clone()));
+        }
+        again.push(second);
         let truth = if fast == Ans::Hang { Ans::Err("not evaluated (fast path hung)".into()) } else { with_watchdog(secs, truth_root.clone(), b.id.clone(), b.messages.clone(), q.clone()) };
         hung = fast == Ans::Hang || truth == Ans::Hang;
         results.push((q.clone(), fast, truth));
     }
-    Outcome { results, abs, full, comp, mr, mr_lens, ord_term, coh, messages: b.messages.clone(), op_errors: b.op_errors, writer_checks: b.writer_checks, writer_violations: b.writer_violations.clone(), ord_steps: b.ord_steps.clone(), prov: b.prov.clone() }
+    Outcome { results, again, read_writer_violations, abs, full, comp, mr, mr_lens, ord_term, coh, messages: b.messages.clone(), op_errors: b.op_errors, writer_checks: b.writer_checks, writer_violations: b.writer_violations.clone(), ord_steps: b.ord_steps.clone(), prov: b.prov.clone() }
 }
 
 fn case_json(c: &Case) -> Value {
@@ -1878,6 +1923,32 @@ fn main() {
                 class,
                 replay: json!({"case": case_json(&Case { ops: case.ops[..=*opi].to_vec(), queries: vec![], long: false }), "check": "write conformance after the last operation"}),
             });
+        }
+        for (qi, t, what) in &out.read_writer_violations {
+            let class = format!("cache_writer_nonconforming:{:?}", t);
+            *seen_classes.entry(class.clone()).or_insert(0) += 1;
+            res.oracle_violations.push(OracleViolation {
+                case_id: -(ci as i64) - 1,
+                what: format!("the read {:?} moved a cache file outside the reference write semantics: {what}", case.queries[*qi]),
+                class,
+                replay: json!({"case": case_json(&Case { ops: case.ops.clone(), queries: vec![case.queries[*qi].clone()], long: false }), "check": "write conformance after the read"}),
+            });
+        }
+        for (qi, second) in out.again.iter().enumerate() {
+            let (Some(second), Some((q, fast, truth))) = (second, out.results.get(qi)) else { continue };
+            res.oracle_checks += 1;
+            res.bump("second_ask_checks");
+            // only when the first answer was right: a wrong first answer is reported (and classified) below
+            if fast == truth && second != truth {
+                let class = format!("answer_changes_after_read:{}", match q { Q::Replay => "replay", Q::CutPoints { .. } => "cut_points", Q::CompactionStatus { .. } => "compaction_status", Q::CursorStatus => "cursor_status", Q::Selection { .. } => "selection_status", Q::Compile { .. } => "compile", _ => "other" });
+                *seen_classes.entry(class.clone()).or_insert(0) += 1;
+                res.oracle_violations.push(OracleViolation {
+                    case_id: -(ci as i64) - 1,
+                    what: format!("{:?}: first answer = the truth answer, the same question asked again of the same store => {}   (truth {})", q, short(&second.json()), short(&truth.json())),
+                    class,
+                    replay: json!({"case": case_json(&Case { ops: case.ops.clone(), queries: vec![q.clone()], long: false }), "check": "ask twice"}),
+                });
+            }
         }
         let mut ord_term = Some(format!("[{}]", out.ord_steps.join("; ")));
         res.bump_by("ord_index_write_steps_in_model", out.ord_steps.len() as u64);
